@@ -37,7 +37,13 @@ pub use crate::tdes::{TdesEde2, TdesEde3, TdesEee2, TdesEee3};
 fn weak_key_test(key: u64) -> u8 {
     let mut is_weak = 0u8;
     for &weak_key in crate::consts::WEAK_KEYS {
-        is_weak |= u8::from(key == weak_key);
+        is_weak |= u8::from(key & PARITY_MASK == weak_key & PARITY_MASK);
     }
     is_weak
 }
+
+/// Mask which clears the parity bit (the least significant bit) of every key byte.
+///
+/// The cipher ignores the parity bits, so keys which differ only in them are the same DES key.
+/// The mask is the same in every byte, so it does not depend on the byte order of the `u64`.
+const PARITY_MASK: u64 = 0xFEFE_FEFE_FEFE_FEFE;
